@@ -2000,6 +2000,68 @@ theorem sourceItems_mem {h : Heap} {data : List Ref} {items : List (Label × Col
         · obtain ⟨c, hc1, hc2⟩ := ih hrest hd
           exact ⟨c, List.mem_append_right _ hc1, hc2⟩
 
+/-- the parents of a derived origin are real origins: a source made in code (no origin) is left out -/
+theorem originsOf_present {h : Heap} (data : List Ref) :
+    ∀ {ps : List Origin}, originsOf h data = .ok ps → ∀ p, p ∈ ps → p.isAbsent = false := by
+  induction data with
+  | nil => intro ps ho p hp; simp [originsOf] at ho; subst ho; cases hp
+  | cons d ds ih =>
+    intro ps ho p hp
+    unfold originsOf at ho
+    cases hm : metaOf h d with
+    | error e => simp [hm] at ho
+    | ok tm =>
+      simp only [hm] at ho
+      cases hr : originsOf h ds with
+      | error e => simp [hr] at ho
+      | ok os =>
+        simp only [hr] at ho
+        cases hab : tm.origin.isAbsent with
+        | true => simp [hab] at ho; subst ho; exact ih hr p hp
+        | false =>
+          simp [hab] at ho
+          subst ho
+          rcases List.mem_cons.1 hp with rfl | hp
+          · exact hab
+          · exact ih hr p hp
+
+/-- `[d.metadata for d in data]` -/
+def metasOf (h : Heap) : List Ref → Except Err (List TMeta)
+  | [] => .ok []
+  | d :: ds =>
+    match metaOf h d with
+    | .error e => .error e
+    | .ok tm => match metasOf h ds with
+      | .error e => .error e
+      | .ok tms => .ok (tm :: tms)
+
+/-- **the parents of the derived origin are the origins of the sources that have one**, in order -/
+theorem originsOf_spec {h : Heap} (data : List Ref) :
+    ∀ {tms : List TMeta}, metasOf h data = .ok tms →
+      originsOf h data = .ok ((tms.map (fun tm => tm.origin)).filter (fun o => !o.isAbsent)) := by
+  induction data with
+  | nil => intro tms hm; simp [metasOf] at hm; subst hm; simp [originsOf]
+  | cons d ds ih =>
+    intro tms hm
+    unfold metasOf at hm
+    cases h1 : metaOf h d with
+    | error e => simp [h1] at hm
+    | ok tm =>
+      simp only [h1] at hm
+      cases h2 : metasOf h ds with
+      | error e => simp [h2] at hm
+      | ok rest =>
+        simp [h2] at hm
+        subst hm
+        unfold originsOf
+        simp only [h1, ih h2]
+        cases hab : tm.origin.isAbsent <;> simp [hab]
+
+/-- with a single source: no parent when it has no origin, else exactly its origin -/
+theorem originsOf_single {h : Heap} {d : Nat} {tm : TMeta} (hm : metaOf h d = .ok tm) :
+    originsOf h [d] = .ok (if tm.origin.isAbsent then [] else [tm.origin]) := by
+  simp [originsOf, hm]
+
 /-! ## finalize_result -/
 
 /-- **table frame iff some selected source carries info** (and the fall-back warns, and leaves the
@@ -2078,8 +2140,10 @@ theorem obsCols_of_fresh {h : Heap} (es : List (Label × Ref))
 
 /-- **name, destinations, origin, input ancestors** of the result: the first source's name and
     destinations (as a set: duplicates erased), a derived origin whose operation is
-    `"Pandas " ++ method`, whose parents are the origins of the sources carrying info (in order) and
-    whose input ancestors are therefore the concatenation of the sources' input ancestors -/
+    `"Pandas " ++ method`, whose parents are the origins of the sources carrying info that have an
+    origin (in order; `originsOf_spec`: a source made in code contributes none) and whose input
+    ancestors are therefore the concatenation of those sources' input ancestors (`ancestors_concat`);
+    in particular they are defined whenever the sources' are (`originsOf_present`: no `None` parent) -/
 theorem finalize_result_meta {h : Heap} {m : Option Str} {oi : Option Ref} {o : Other} {fr : Frame}
     {h' : Heap} {i : Nat} {w : List Warn} (hf : finalize h m oi o fr = .ok (h', .table i, w)) :
     ∃ src warned d0 rest tm0 xs parents obs,
@@ -2895,7 +2959,7 @@ theorem rewrap_fresh {h : Heap} {i : Nat} {fr : Frame} {kw : Kw} {h' : Heap} {i'
         | ok cs =>
           simp only [hco] at hr
           obtain ⟨ext, hfresh⟩ := buildTable_fresh hr
-          have e12 := destsArg_ext h1 tm.dests kw.dests
+          have e12 := destsArg_ext h1 tm.dests kw.destsValue
           exact ⟨e12.trans ext, fun x hx => ⟨locFresh_mono e12 (hfresh x hx).1, (hfresh x hx).2⟩⟩
 
 /-- **re-wrap independence**: the re-wrapped table and the original are separated, and the original
@@ -3041,14 +3105,20 @@ example : (match finalize heap (some "concat".toList) none other frame with
 
 /-- re-wrap with an overriding name and units (hypotheses of `rewrap_independent`) -/
 def frameT : Frame := ⟨[("a".toList, "float64".toList, 'f'), ("b".toList, "object".toList, 'O')], false⟩
-def kw : Kw := ⟨some "wrapped".toList, none, some ["mm".toList, "text".toList], none⟩
+def kw : Kw where
+  name := some "wrapped".toList
+  dests := none
+  units := some ["mm".toList, "text".toList]
+  transposed := some true
+  destsStr := some "w1  w2".toList
+  strict := some false
 
 example : kw.isEmpty = false ∧
     (match rewrap heap 0 frameT kw with
      | .ok (h', i') => ((observe h' i').map (fun o => (o.name, o.dests, o.cols.map (fun c => c.unit))),
                         (observe h' 0).map (fun o => (o.name, o.cols.map (fun c => c.unit))))
      | .error _ => (none, none)) =
-    (some ("wrapped".toList, ["all".toList, "d2".toList], ["mm".toList, "text".toList]),
+    (some ("wrapped".toList, ["w1".toList, [], "w2".toList], ["mm".toList, "text".toList]),
      some ("t".toList, ["m".toList, "text".toList])) := by decide
 
 end Example
